@@ -50,9 +50,9 @@ FIELD_REQUIRED = {
     "C01": ["add:no_carry", "add:one_carry", "add:two_carries", "sub:no_borrow", "sub:one_borrow", "sub:two_borrows",
             "mul:carry0_borrow0", "mul:carry0_borrow1", "mul:carry1_borrow0", "mul:carry1_borrow1", "mul:hi_zero",
             "mul:hi_lo_ffffffff", "mul:hi_hi_ffffffff", "inc:plus1", "inc:wrap_to_zero", "inc:via_add", "dec:minus1", "dec:wrap",
-            "in:noncanonical_operand", "out:noncanonical_result", "alias:pairs_checked", "oracle:gmp_crosschecks"],
+            "in:noncanonical_operand", "out:noncanonical_result", "alias:pairs_checked", "oracle:gmp_crosschecks", "family:concurrent_callers"],
     "C10": ["family:inv_directed", "family:inv_random", "inv:noncanonical_operand", "exp:exponent_zero", "exp:exponent_one",
-            "exp:general", "exp:noncanonical_base", "exp:zero_base", "refusal:cases"],
+            "exp:general", "exp:noncanonical_base", "exp:zero_base", "refusal:cases", "refusal:cases_after_successful_inversions"],
     "C15": ["fromS32:int32_min", "fromS32:negative", "fromS64:negative", "fromS64:beyond_centred_range", "fromString:below_minus_p",
             "fromString:negative", "fromString:above_p", "fromString:non_decimal_radix", "toS32:int32_min", "toS32:int32_max",
             "toS32:out_of_range", "equal:alias_pairs", "out:noncanonical_representation", "toString:radix_checked"],
@@ -90,8 +90,8 @@ LANE_REQUIRED = ["family:fixed_x_fixed", "family:small_grid", "family:solve_sum"
                  "lane:a_noncanonical_canonicalised", "lane:add_overflow_corrected", "lane:add_no_overflow", "lane:small_equal_high_halves",
                  "lane:small_low_half_carry", "lane:sub_underflow_corrected", "lane:sub_no_underflow", "lane:true_sum_or_diff_noncanonical_band",
                  "lane:b_equals_0xFFFFFFFF00000000", "lane:mul_hi_lo_ffffffff", "lane:mul_hi_hi_ffffffff", "lane:mul_hi_zero",
-                 "lane:load_store_set_shift_checked"]
-MAT_REQUIRED = ["band:probed_lane_products_noncanonical", "band:probed_two_or_more_noncanonical_addends_in_one_lane",
+                 "lane:load_store_set_shift_checked", "lane:in_place_call_forms"]
+MAT_REQUIRED = ["forms:result_register_is_state_register", "band:probed_lane_products_noncanonical", "band:probed_two_or_more_noncanonical_addends_in_one_lane",
                 "band:state_positions_with_product_in_[p,2^64)"] + \
     ["matfam:%s:%s" % (f, w) for f in ("uniform", "boundary", "band_directed", "three_times_5555", "quotient_like", "low_word_8bit_high_word_set") for w in ("8bit", "full")]
 LANE_RULE = ("every lane of every call carries a different operand pair (lane position rotated per call); pairs from the fixed boundary set "
@@ -160,7 +160,7 @@ NTT_REQUIRED = {
             "cfg:odd_effective_phases", "cfg:nblock_clamped", "cfg:nphase_clamped", "cfg:size_below_object_domain", "cfg:size_one", "cfg:size_zero_noop",
             "cfg:zero_columns_noop", "cfg:identity_matrix_input", "cfg:boundary_input", "cfg:object_used_before", "hook:revperm:branch0", "hook:revperm:branch2",
             "hook:ntt_pass:writeback0", "hook:ntt_land:in_destination", "monitor:linearity_triples", "monitor:root_table_entries_checked",
-            "omp_shim:regions_with_permuted_member_order", "omp:real_libgomp_processes", "oracle:naive_dft_columns", "oracle:recursive_fft_columns"],
+            "omp_shim:regions_with_permuted_member_order", "omp:real_libgomp_processes", "oracle:naive_dft_columns", "oracle:recursive_fft_columns", "threadlimit2:cfg:alias1"],
     "C19": ["history:sequences", "history:extendPol_N_grows", "history:extendPol_N_shrinks", "history:large_then_small", "history:blocked_unblocked_switch",
             "history:two_objects_interleaved", "hook:extendPol:tables_recomputed", "hook:extendPol:tables_reused"] +
            ["history:pair:%s->%s" % (a, b) for a in ("NTT", "INTT", "extendPol") for b in ("NTT", "INTT", "extendPol")],
@@ -170,7 +170,7 @@ NTT_REQUIRED["C05"] = ["cfg:extendPol", "cfg:alias0", "cfg:alias1", "cfg:blocked
                        "cfg:odd_effective_phases", "cfg:extend_same_size", "cfg:extend_onsite_zero_padding", "cfg:size_one", "cfg:boundary_input", "cfg:object_used_before",
                        "hook:revperm:branch0", "hook:revperm:branch1", "hook:revperm:branch2", "hook:revperm:branch3", "hook:ntt_pass:writeback2",
                        "hook:computeR", "monitor:linearity_triples", "monitor:root_table_entries_checked", "omp_shim:regions_with_permuted_member_order",
-                       "omp:real_libgomp_processes"]
+                       "omp:real_libgomp_processes", "threadlimit2:cfg:alias1"]
 
 
 def check_shim_symbols(binary):
@@ -206,6 +206,11 @@ def check_ntt(prop, tier, seed, work, t0):
                                  tag="libgomp", timeout=to))
         res.merge(vfw.run_shards(work, bins["ntt-asan"], prop, tier, seed, NCPU, grid + ["--slice", scaled(tier, 8, 4), "--large", scaled(tier, 20, 100), "--dmax", "12", "--elarge", "11",
                                                                                    "--roundtrips", scaled(tier, 2000, 20000), "--d22", "0"], tag="asan", timeout=to))
+        # the runtime may deliver fewer threads than the object asks for (thread limit, nested region): same results required
+        rl = vfw.run_shards(work, bins["ntt-prod"], prop, tier, seed + 9, 8, grid + ["--slice", scaled(tier, 30, 10), "--linearity", "0", "--roundtrips", scaled(tier, 1000, 10000), "--d22", "0", "--big", "0"],
+                            tag="libgomp-threadlimit2", timeout=to, env={"OMP_THREAD_LIMIT": "2"})
+        rl.counters = {("threadlimit2:" + k if k.startswith("cfg:alias") else k): v for k, v in rl.counters.items()}
+        res.merge(rl)
     return vfw.finalize(prop, tier, seed, res, t0, NTT_RULE[prop], assumptions=ASSUME_COMMON + [
         "the pinned table of 33 roots in the oracle (self-checked for order and the chain W[k+1]^2=W[k]) defines w_n",
         "the pthread stand-in for libgomp delivers legal OpenMP schedules (sequential permuted member order); a 5% slice runs on real libgomp"],
@@ -233,10 +238,10 @@ POS_RULE = {
 }
 POS_REQUIRED = {
     "C06": ["family:uniform", "family:all_boundary", "family:single_hot_boundary", "family:mixed_g64", "family:inverse_constructed_round0",
-            "family:inverse_constructed_round1", "family:inverse_constructed_round2", "in:noncanonical_state_element", "backend:avx512_pairs",
+            "family:inverse_constructed_round1", "family:inverse_constructed_round2", "in:noncanonical_state_element", "backend:avx512_pairs", "forms:chained_in_place_calls",
             "oracle:known_answers_checked", "tables:pinned_hash_checked"],
     "C07": ["len:zero", "len:passthrough(<=4)", "len:threshold_4_5", "len:single_block", "len:multiple_of_8", "len:ragged_last_block", "len:long",
-            "arena:guard_page_after_input", "arena:guard_page_before_input", "backend:avx512", "oracle:known_answers_checked", "tables:pinned_hash_checked"] +
+            "arena:guard_page_after_input", "arena:guard_page_before_input", "backend:avx512", "oracle:known_answers_checked", "tables:pinned_hash_checked", "family:concurrent_callers"] +
            ["len:residue_mod8_%d" % i for i in range(8)],
     "C08": ["builder:" + b for b in ("merkletree_seq", "merkletree_avx", "merkletree_avx512", "merkletree", "merkletree_batch_seq", "merkletree_batch_avx",
                                      "merkletree_batch_avx512", "merkletree_batch")] +
